@@ -19,16 +19,16 @@ import (
 type CKind int
 
 const (
-	CBot    CKind = iota // not (yet) reached
-	CConst               // a constant of basic type
-	CNil                 // the nil value of a pointer/interface/slice/map/func type
-	CType                // a non-nil interface value whose dynamic type is T (contents unknown)
-	CTuple               // multiple results
-	CSym                 // an opaque symbol standing for a caller-supplied object (nothing can be computed from it)
-	CPtr                 // the address of a local struct variable (F < 0) or of its field F
-	CStruct              // a struct value, field by field
-	CClosure             // a function literal (Fn) with the values bound to its free variables (Tup)
-	CTop                 // unknown
+	CBot     CKind = iota // not (yet) reached
+	CConst                // a constant of basic type
+	CNil                  // the nil value of a pointer/interface/slice/map/func type
+	CType                 // a non-nil interface value whose dynamic type is T (contents unknown)
+	CTuple                // multiple results
+	CSym                  // an opaque symbol standing for a caller-supplied object (nothing can be computed from it)
+	CPtr                  // the address of a local struct variable (F < 0) or of its field F
+	CStruct               // a struct value, field by field
+	CClosure              // a function literal (Fn) with the values bound to its free variables (Tup)
+	CTop                  // unknown
 )
 
 // CVal is an abstract value.
